@@ -9,8 +9,7 @@ From V.model Require Import Rtc.
 
 Record image := mkImage { img_len : N; img_at : N -> N }.
 
-(* KNil: newMBC returned nil (image shorter than 0x148 bytes); every call through the interface panics *)
-Inductive kind := KNil | KNone | KMbc1 | KMbc2 | KMbc3 | KMbc5.
+Inductive kind := KNone | KMbc1 | KMbc2 | KMbc3 | KMbc5.
 
 Record cart := mkCart {
   c_kind : kind;
@@ -48,7 +47,7 @@ Definition set_rtc (c : cart) (r : rtc) : cart :=
   mkCart (c_kind c) (c_img c) (c_nrom c) (c_nram c) (c_ram c) (c_en c) (c_bank1 c) (c_bank2 c) (c_mode1 c)
          (c_romBank0 c) (c_romBank c) (c_ramBank c) r.
 
-(* Go's x % y on unsigned operands: panics when y = 0 *)
+(* Go's x % y: panics when y = 0 *)
 Definition gomod (x y : N) : res N := if y =? 0 then Crash CDiv0 else Ok (x mod y).
 
 (* m.rom[bank][off] with off < 0x4000 ; m.ram[bank][off] with off < 0x2000 *)
@@ -83,10 +82,10 @@ Definition ram_banks (cartType ramSize : N) : N :=
 
 (* func (m *mbc1) updateBanks() *)
 Definition mbc1_update (c : cart) : res cart :=
-  let n8 := u8 (c_nrom c) in                                   (* uint8(len(m.rom)) *)
-  do b0 <- (if c_mode1 c then gomod (shl8 (c_bank2 c) 5) n8 else Ok 0);
-  do b1 <- gomod (N.lor (c_bank1 c) (shl8 (c_bank2 c) 5)) n8;
-  let c1 := set_romBank (set_romBank0 c b0) b1 in
+  (* uint8(int(m.bank2<<5) % len(m.rom)), uint8(int(m.bank1|m.bank2<<5) % len(m.rom)) *)
+  do b0 <- (if c_mode1 c then gomod (shl8 (c_bank2 c) 5) (c_nrom c) else Ok 0);
+  do b1 <- gomod (N.lor (c_bank1 c) (shl8 (c_bank2 c) 5)) (c_nrom c);
+  let c1 := set_romBank (set_romBank0 c (u8 b0)) (u8 b1) in
   if c_en c then
     if c_mode1 c then
       do rb <- gomod (c_bank2 c) (u8 (c_nram c));
@@ -98,9 +97,7 @@ Definition cart_blank (k : kind) (img : image) (nrom nram : N) (ram : Mem.t) (r 
   mkCart k img nrom nram ram false 1 0 false 0 1 0 r.
 
 Definition cart_construct (img : image) : res cart :=
-  if img_len img <? 328 (* 0x148 *) then
-    Ok (cart_blank KNil img 0 0 (Mem.empty 255) rtc_init)
-  else if img_len img <=? 328 then Crash CIndex                  (* romImage[0x0148] *)
+  if img_len img <? 336 (* 0x150 *) then Crash CExplicit          (* too short to hold a header *)
   else
     let romSize := img_at img 328 in
     (* prepareROM *)
@@ -109,7 +106,6 @@ Definition cart_construct (img : image) : res cart :=
       let pages := img_len img / 16384 in
       (* 0x02 << romSize in a 64-bit int: 0 from 63 on, negative at 62 *)
       if negb ((romSize <=? 61) && (pages =? 2 * 2 ^ romSize)) then Crash CExplicit
-      else if img_len img <=? 329 then Crash CIndex              (* unreachable: length is a multiple of 0x4000 *)
       else
         let cartType := img_at img 327 in
         let ramSize := img_at img 329 in
@@ -117,7 +113,6 @@ Definition cart_construct (img : image) : res cart :=
         match kind_of_type cartType with
         | None => Crash CExplicit
         | Some KMbc1 => mbc1_update (cart_blank KMbc1 img pages nram (Mem.empty 255) rtc_init)
-        | Some KMbc2 => Ok (cart_blank KMbc2 img pages nram (Mem.empty 0) rtc_init)
         | Some k => Ok (cart_blank k img pages nram (Mem.empty 255) rtc_init)
         end.
 
@@ -129,15 +124,17 @@ Definition ram_window_read (c : cart) (addr : N) : res N :=
   | KMbc3 =>
       if c_en c then
         if 8 <=? c_ramBank c then rtc_read (c_rtc c) (c_ramBank c)
-        else ram_at c (c_ramBank c) (addr - 40960)
+        else do b <- gomod (c_ramBank c) (c_nram c); ram_at c b (addr - 40960)
       else Ok 255
   | _ => if c_en c then ram_at c (c_ramBank c) (addr - 40960) else Ok 255
   end.
 
 Definition cart_read (c : cart) (addr : N) : res N :=
   match c_kind c with
-  | KNil => Crash CNil
-  | KNone => if addr <? img_len (c_img c) then Ok (img_at (c_img c) addr) else Crash CIndex   (* n.rom[addr] *)
+  | KNone =>
+      if addr <? 32768 then
+        if addr <? img_len (c_img c) then Ok (img_at (c_img c) addr) else Crash CIndex       (* n.rom[addr] *)
+      else Ok 255
   | k =>
       if addr <? 16384 then rom_at c (match k with KMbc1 => c_romBank0 c | _ => 0 end) addr
       else if addr <? 32768 then rom_at c (c_romBank c) (addr - 16384)
@@ -165,8 +162,8 @@ Definition mbc2_write (c : cart) (addr v : N) : res cart :=
     if N.land addr 256 =? 0 then Ok (set_en c (enable_value v))
     else
       let b := N.land v 15 in
-      do r <- gomod (if b =? 0 then 1 else b) (u8 (c_nrom c));
-      Ok (set_romBank c r)
+      do r <- gomod (if b =? 0 then 1 else b) (c_nrom c);
+      Ok (set_romBank c (u8 r))
   else if addr <? 40960 then Ok c
   else if addr <? 49152 then
     if c_en c then Ok (set_ram c (Mem.set (c_ram c) ((addr - 40960) mod 512) (N.lor v 240))) else Ok c
@@ -174,7 +171,10 @@ Definition mbc2_write (c : cart) (addr v : N) : res cart :=
 
 Definition mbc3_write (c : cart) (addr v : N) : res cart :=
   if addr <? 8192 then Ok (set_en c (enable_value v))
-  else if addr <? 16384 then Ok (set_romBank c (N.land v 127))
+  else if addr <? 16384 then
+    let b := N.land v 127 in
+    do r <- gomod (if b =? 0 then 1 else b) (c_nrom c);
+    Ok (set_romBank c (u8 r))
   else if addr <? 24576 then Ok (set_ramBank c (N.land v 15))
   else if addr <? 32768 then
     Ok (set_rtc c (if N.land v 1 =? 0 then rtc_latch_low (c_rtc c) else rtc_latch_high (c_rtc c)))
@@ -182,26 +182,28 @@ Definition mbc3_write (c : cart) (addr v : N) : res cart :=
   else if addr <? 49152 then
     if c_en c then
       if 8 <=? c_ramBank c then Ok (set_rtc c (rtc_write (c_rtc c) (c_ramBank c) v))
-      else ram_put c (c_ramBank c) (addr - 40960) v
+      else do b <- gomod (c_ramBank c) (c_nram c); ram_put c b (addr - 40960) v
     else Ok c
   else Ok c.
 
 Definition mbc5_write (c : cart) (addr v : N) : res cart :=
   if addr <? 8192 then Ok (set_en c (enable_value v))
   else if addr <? 12288 then
-    do r <- gomod (u16 (N.land (c_romBank c) 65280 + v)) (u16 (c_nrom c));
-    Ok (set_romBank c r)
+    do r <- gomod (u16 (N.land (c_romBank c) 65280 + v)) (c_nrom c);
+    Ok (set_romBank c (u16 r))
   else if addr <? 16384 then
-    do r <- gomod (u16 (u16 (N.shiftl v 8) + N.land (c_romBank c) 255)) (u16 (c_nrom c));
-    Ok (set_romBank c r)
+    do r <- gomod (u16 (u16 (N.shiftl v 8) + N.land (c_romBank c) 255)) (c_nrom c);
+    Ok (set_romBank c (u16 r))
   else if addr <? 24576 then
     do r <- gomod (N.land v 15) (u8 (c_nram c));
     Ok (set_ramBank c r)
+  else if addr <? 40960 then Ok c
+  else if addr <? 49152 then
+    if c_en c then ram_put c (c_ramBank c) (addr - 40960) v else Ok c
   else Ok c.
 
 Definition cart_write (c : cart) (addr v : N) : res cart :=
   match c_kind c with
-  | KNil => Crash CNil
   | KNone => Ok c
   | KMbc1 => mbc1_write c addr v
   | KMbc2 => mbc2_write c addr v
@@ -215,12 +217,11 @@ Definition cart_tick (c : cart) : cart := set_rtc c (rtc_tick (c_rtc c)).
 Definition cart_advance (c : cart) (n : N) : cart := set_rtc c (rtc_advance (c_rtc c) n).
 
 (* DumpRAM *)
-Definition cart_dump (c : cart) : res (list N) :=
+Definition cart_dump (c : cart) : list N :=
   match c_kind c with
-  | KNil => Crash CNil
-  | KNone => Ok []
-  | KMbc2 => Ok (map (Mem.get (c_ram c)) (upto 512))
-  | _ => Ok (map (Mem.get (c_ram c)) (upto (N.to_nat (c_nram c * 8192))))
+  | KNone => []
+  | KMbc2 => map (Mem.get (c_ram c)) (upto 512)
+  | _ => map (Mem.get (c_ram c)) (upto (N.to_nat (c_nram c * 8192)))
   end.
 
 (* ---------------- operation histories ---------------- *)
@@ -231,7 +232,7 @@ Definition cart_step (c : cart) (o : cop) : res cart :=
   | CRead a => do _ <- cart_read c a; Ok c
   | CWrite a v => cart_write c a v
   | CTick n => Ok (N.iter n cart_tick c)
-  | CDump => do _ <- cart_dump c; Ok c
+  | CDump => Ok c
   end.
 
 Fixpoint cart_run (c : cart) (ops : list cop) : res cart :=
